@@ -17,7 +17,7 @@ EXPLANATION = (
     'against vacuity. Counterexamples are replayed on real PuLP + CBC with the matching pinned.')
 ASSUMPTIONS = BASE_ASSUMPTIONS + [
     'well-formed instance: lower <= upper per project, lower <= target <= upper per lecturer',
-    'multipliers / cut-offs concrete; sequences of length 2 and 3']
+    'multipliers / cut-offs concrete, plus pairs in which the cost weights are symbolic integers >= 0; sequences of length 2 and 3']
 LEVEL_TEXT = ('Bounded SMT verification of the real code: exists-forall query (all quotas, all MILP tie-breaks) that the reported matching is '
               'lexicographically optimal for the documented measures in position order; ordered pairs/triples and shapes bounded.')
 LEVEL_NOTE = 'Trusted: z3 quantifier reasoning + qe tactic, PuLP stand-in, vf/spec.py. Outside: CBC, sequences longer than 3, shapes beyond the bound.'
@@ -78,6 +78,13 @@ def tasks(tier, seed):
                 out.append({'prop': ID, 'shape': lpchecks.shape_data(I), 'flags': flags, 'seq': s,
                             'argv_seq': lpchecks.gapped_argv(s, rng),
                             'forms': ['opt'], 'wf': True, 'negctl': i < 3})
+            # compositions in which the cost weights are symbolic (all multiplier values at once)
+            SYM = [[('maxsize', []), ('mincost', ['sym', 'sym'])], [('mincost', ['sym', 'sym']), ('maxsize', [])],
+                   [('gre', []), ('minsqcost', ['sym', 'sym'])], [('minsqcost', ['sym', 'sym']), ('gen', [])],
+                   [('lsb', []), ('mincost', ['sym', 'sym'])], [('mincostlsb', ['sym', 1]), ('maxsize', [])]]
+            for s in (SYM[k % len(SYM)], SYM[(k + 3) % len(SYM)]):
+                out.append({'prop': ID, 'shape': lpchecks.shape_data(I), 'flags': flags, 'seq': s,
+                            'forms': ['opt'], 'wf': True, 'symmult': True})
     return out
 
 
